@@ -197,6 +197,8 @@ class Filer(hioing.Mixin):
             fext (str): File extension when .filed
         """
         self.close(clear=clear)
+        # temp head dir made by earlier remake that still holds .path if any
+        tempDirPath = self._tempDirPath() if self.temp else None
 
         if temp is not None:
             self.temp = temp
@@ -210,6 +212,8 @@ class Filer(hioing.Mixin):
             self.fext = fext
 
         if not self.path or not os.path.exists(self.path) or not reuse:
+            if tempDirPath and not self.temp:  # no longer temp so remove it
+                shutil.rmtree(tempDirPath)
             self.path, self.file = self.remake(name=self.name,
                                                base=self.base,
                                                temp=self.temp,
@@ -220,6 +224,7 @@ class Filer(hioing.Mixin):
                                                extensioned=self.extensioned,
                                                mode=self.mode,
                                                fext=self.fext,
+                                               tempDirPath=tempDirPath,
                                                **kwa)
         elif self.filed:  # would not be here unless self.path already exists
             self.file = ocfn(self.path, mode=self.mode)
@@ -231,7 +236,7 @@ class Filer(hioing.Mixin):
 
     def remake(self, *, name="", base="", temp=None, headDirPath=None, perm=None,
                 clean=False, filed=False, extensioned=False, mode=None,
-                fext=None, **kwa):
+                fext=None, tempDirPath=None, **kwa):
         """Make and return (path. file) by opening or creating and opening if not
         preexistent, directory or file at  path
 
@@ -261,6 +266,8 @@ class Filer(hioing.Mixin):
                                 False means do not ensure .path ends with fext
             mode (str): file open mode when .filed such as "w+"
             fext (str): File extension when .filed
+            tempDirPath (str): when temp, already made temp head directory to
+                          remake in instead of making yet another one
         """
         if os.path.isabs(name):
             raise hioing.FilerError(f"Not relative {name=} path.")
@@ -298,9 +305,9 @@ class Filer(hioing.Mixin):
             raise hioing.FilerError(f"Not relative {name=} path.")
 
         if temp:
-            headDirPath = tempfile.mkdtemp(prefix=self.TempPrefix,
-                                           suffix=self.TempSuffix,
-                                           dir=self.TempHeadDir)
+            headDirPath = tempDirPath or tempfile.mkdtemp(prefix=self.TempPrefix,
+                                                          suffix=self.TempSuffix,
+                                                          dir=self.TempHeadDir)
 
             path = os.path.abspath(
                                 os.path.join(headDirPath,
@@ -324,7 +331,7 @@ class Filer(hioing.Mixin):
                     os.makedirs(head)
                 if filed:
                     file = ocfn(path, mode=mode, perm=perm)
-            else:
+            elif not os.path.exists(path):  # may exist when remade in tempDirPath
                 os.makedirs(path)
 
         else:
@@ -528,15 +535,24 @@ class Filer(hioing.Mixin):
 
         # when temp remove temp head dir made by remake if any with all below it
         # but only when .path is inside it, .path may be a reused persistent path
-        if self.temp and self.path:
-            tempDirPath = os.path.abspath(self.TempHeadDir)
-            head = self.path
-            while os.path.dirname(head) not in (head, tempDirPath):
-                head = os.path.dirname(head)
-            tail = os.path.basename(head)
-            if (os.path.dirname(head) == tempDirPath and os.path.isdir(head) and
-                    tail.startswith(self.TempPrefix) and tail.endswith(self.TempSuffix)):
-                shutil.rmtree(head)
+        if self.temp and self._tempDirPath():
+            shutil.rmtree(self._tempDirPath())
+
+
+    def _tempDirPath(self):
+        """Returns temp head dir made by remake that .path is inside of else None
+        """
+        if not self.path:
+            return None
+        tempDirPath = os.path.abspath(self.TempHeadDir)
+        head = self.path
+        while os.path.dirname(head) not in (head, tempDirPath):
+            head = os.path.dirname(head)
+        tail = os.path.basename(head)
+        if (os.path.dirname(head) == tempDirPath and os.path.isdir(head) and
+                tail.startswith(self.TempPrefix) and tail.endswith(self.TempSuffix)):
+            return head
+        return None
 
 
 
